@@ -179,8 +179,8 @@ func (v *verifNAT) op(f []string) (out string) {
 }
 
 var (
-	verifInternal = []string{"10.0.0.2:5000", "10.0.0.2:5001", "10.0.0.3:5000", "10.0.0.34:56", "10.0.0.3:456", "10.0.0.4:6000"}
-	verifRemotes  = []string{"5.6.7.8:80", "5.6.7.8:81", "5.6.7.9:80", "9.9.9.9:53", "5.6.7.89:8", "5.6.7.8:98"}
+	verifInternal = []string{"10.0.0.2:5000", "10.0.0.2:5001", "10.0.0.3:5000", "10.0.0.34:56", "10.0.0.3:456", "10.0.0.4:6000", "10.0.0.2:500", "10.0.0.2:5005"}
+	verifRemotes  = []string{"5.6.7.8:80", "5.6.7.8:81", "5.6.7.9:80", "9.9.9.9:53", "5.6.7.89:8", "5.6.7.8:98", "55.6.7.8:80"}
 )
 
 func verifNATGen(r *vh.Rng, o *vh.Out, id string, long bool) {
